@@ -62,3 +62,54 @@ func (lr *LexerReader) AppendHistory(r rune) {
 func (lr *LexerReader) Unread() {
 	lr.ungetFlg = true
 }
+
+// AtLineStartWith answers whether the next unread rune opens a line that
+// starts with prefix followed by white space or the end of the input
+// (=begin / =end of a block comment). Nothing is consumed.
+func (lr *LexerReader) AtLineStartWith(prefix string) bool {
+	if lr.ungetFlg || len(lr.history) > 0 {
+		return false
+	}
+
+	if lr.pos > 0 && lr.runes[lr.pos-1] != '\n' {
+		return false
+	}
+
+	end := lr.pos
+
+	for _, r := range prefix {
+		if end >= len(lr.runes) || lr.runes[end] != r {
+			return false
+		}
+
+		end++
+	}
+
+	if end >= len(lr.runes) {
+		return true
+	}
+
+	switch lr.runes[end] {
+	case ' ', '\t', '\r', '\n':
+		return true
+	}
+
+	return false
+}
+
+// SkipLine consumes the rest of the current line including its line break and
+// answers whether there was one (false: the input ended first).
+func (lr *LexerReader) SkipLine() bool {
+	for lr.pos < len(lr.runes) {
+		r := lr.runes[lr.pos]
+		lr.pos++
+
+		if r == '\n' {
+			lr.char = r
+
+			return true
+		}
+	}
+
+	return false
+}
